@@ -112,13 +112,17 @@ def run_selftest(prop, only=None, keep=False, verbose=True):
     finally:
         if not keep:
             shutil.rmtree(root, ignore_errors=True)
-            shutil.rmtree(os.path.join(factsrc.WORK, "facts-scratch"), ignore_errors=True)
+            shutil.rmtree(factsrc.slot_dir("scratch"), ignore_errors=True)
     return res
 
 
 def thorough(run):
     """Called by ./check --tier thorough after the rules passed on /repo."""
-    res = run_selftest(run.prop)
+    try:
+        res = run_selftest(run.prop)
+    except Exception as e:  # the self-test is about the checker, never about /repo: it must not change the verdict
+        print("CHECKER-SELFTEST-ERROR property=%s %s: %s (reported, does not change the verdict on /repo)" % (run.prop, type(e).__name__, str(e)[:300]))
+        return 0
     print("== %s checker self-test: %d mutants, %d caught, %d missed, %d skipped; unpatched scratch silent: %s" % (
         run.prop, res["mutants"], res["caught"], len(res["missed"]), len(res["skipped"]), res["baseline_silent"]))
     # merge into the evidence file
